@@ -44,9 +44,12 @@ func c17Event(s string, cache []byte) []byte {
 
 // c17Apply is the engine's apply/scan callback: one event = one row.
 func c17Apply(scanOnly bool) ApplyEventFunction {
+	// VERIF_C17_APPLY_MAX > 0: consume at most that many events per call (the binlog reader then
+	// calls again with the rest) so that re-reads advance in small steps
+	maxEv := c17Env("VERIF_C17_APPLY_MAX", 0)
 	return func(conn Conn, offset int64, b []byte) (int, error) {
 		read := 0
-		for len(b) > 0 {
+		for cnt := 0; len(b) > 0 && (maxEv <= 0 || cnt < maxEv); cnt++ {
 			if len(b) < 4 {
 				return read, binlog2.ErrorNotEnoughData
 			}
@@ -224,7 +227,7 @@ func TestVerifC17Child(t *testing.T) {
 						id = id + "~" + string(fill)
 					}
 					say("call %s\n", short)
-					err := e.Do(context.Background(), "c17w", func(c Conn, _ []byte) ([]byte, error) {
+					dbOff, _, err := e.DoWithOffset(context.Background(), "c17w", func(c Conn, _ []byte) ([]byte, error) {
 						if kind == 2 {
 							return nil, errC17Callback
 						}
@@ -249,6 +252,17 @@ func TestVerifC17Child(t *testing.T) {
 						stopOnce.Do(func() { close(stop) })
 						return
 					default:
+						if mode == WaitCommit {
+							// observation point: when Do returns in wait-for-commit mode the binlog
+							// must have reported a commit that covers this write
+							if ci, _ := e.committedInfo.Load().(*committedInfo); ci == nil || ci.offset < dbOff {
+								var co int64 = -1
+								if ci != nil {
+									co = ci.offset
+								}
+								say("EARLYACK %s %d %d\n", short, dbOff, co)
+							}
+						}
 						say("ack %s\n", short)
 						if acks.Add(1) >= quota {
 							stopOnce.Do(func() { close(stop) })
@@ -301,12 +315,15 @@ func TestVerifC17Child(t *testing.T) {
 					}
 					var n int
 					var x uint64
-					err := e.Do(context.Background(), "c17r", func(c Conn, _ []byte) ([]byte, error) {
+					dbOff, _, err := e.DoWithOffset(context.Background(), "c17r", func(c Conn, _ []byte) ([]byte, error) {
 						var err error
 						n, x, err = c17ReadTable(c)
 						return nil, err
 					})
 					if err == nil {
+						if ci, _ := e.committedInfo.Load().(*committedInfo); ci == nil || ci.offset < dbOff {
+							say("EARLYREAD %d %d\n", n, dbOff)
+						}
 						say("doview %d %x\n", n, x)
 					}
 					time.Sleep(3 * time.Millisecond)
